@@ -889,10 +889,12 @@ func (h *hist) shape() string {
 func TestC13(t *testing.T) {
 	r := lib.Start(t, "C13")
 	defer r.Finish()
-	r.Rule("each case is one history on a fresh hook-built loginInboundConn over a recording MinecraftConn: 0-6 login plugin messages sent before loginEventFired and from 1-3 barrier-released goroutines racing it, consumers sending follow-ups (depth<=2), a client answering visible messages in PRNG order (success/failure, unique payloads) with duplicates and never-assigned ids mixed in; modes main / late (more sends after completion) / forge (real backendLoginSessionHandler relaying fml:loginwrapper messages fed by a backend goroutine). distinct = distinct (case spec, observed event-order shape); a case without any message is trivial and not counted")
+	r.Rule("each case is one history on a fresh hook-built loginInboundConn over a recording MinecraftConn: 0-6 login plugin messages sent before loginEventFired and from 1-3 barrier-released goroutines racing it, consumers sending follow-ups (depth<=2), a client answering visible messages in PRNG order (success/failure, unique payloads) with duplicates and never-assigned ids mixed in; modes main / late (more sends after completion) / forge (real backendLoginSessionHandler relaying fml:loginwrapper messages fed by a backend goroutine). distinct = distinct (case spec, observed event-order shape); a case without any message is trivial and not counted. Second layer (e2e_test.go): real logins on a live in-process proxy, per round one session on EVERY supported protocol >= 1.13 (plus Forge-marker sessions below 1.20.2 against a manual fake Forge backend, online-mode sessions where the completion sends the encryption request, and protocols 47/340 that cannot carry login plugin messages): ConnectionHandshakeEvent/PreLoginEvent subscribers send 0-4 messages (own sends, goroutines joined before return, goroutines racing the return, consumer follow-ups; 1.20.2+: late sends from GameProfileRequestEvent/LoginEvent through the kept connection), a fake client with its own codec answers in PRNG order with success+payload / success+EMPTY body / failure, duplicates and never-assigned ids; distinct = (protocol, mode, spec seed, responses written)")
 	r.Assume("the recording MinecraftConn makes a buffered packet visible to the client only after Flush/WritePacket, as netmc.MinecraftConn documents")
 	r.Assume("client responses are handled one at a time on one goroutine, as the client read loop does")
 	r.Assume("stamps come from one atomic counter taken at the boundary (before invoking / after return)")
+	r.Assume("e2e layer: a message counts as 'registered before the completion decision' only if its send returned before the PreLogin handler returned, before a consumer call that preceded the completion, or it was sent by a consumer that returned before the completion; everything else is the flagged class 'possibly after completion'")
+	r.Assume("e2e layer: the fake client and the fake Forge backend parse and build login plugin requests/responses from raw bytes themselves; Gate's packet codec for them is under observation")
 
 	n := r.N(3000, 200000)
 	master := r.Rng("specs")
@@ -969,4 +971,8 @@ func TestC13(t *testing.T) {
 	}
 	r.Set("distinct_event_order_shapes", len(shapes))
 	r.Set("histories_by_mode", modes)
+
+	// second layer: real logins on a live proxy (who calls the mechanism, the wire codec,
+	// the session handlers' routing, the Forge relay over real connections)
+	runE2E(r)
 }
